@@ -21,6 +21,37 @@ Example %s_nonvacuous :
 Proof. vm_compute. repeat split; reflexivity. Qed.
 """
 
+
+EX2 = """
+(* non-vacuity of the cross-label theorems: a concrete run of the executable instance (one attacker, step limit 1)
+   reaches a state in which the agent has been rewarded (step reward -1 plus fail bonus -10); continuing the run
+   (the released handler answers, the agent is refused a further action, the reward task is not enabled again)
+   the record is exactly the same *)
+Example %s_episode_nonvacuous :
+  let cfg := {| required := 1; max_steps := fun _ => Some 1; r_step := (-1)%%Z; r_succ := 100%%Z; r_fail := (-10)%%Z;
+                allowed := fun _ => true; save_traj := false |} in
+  let ex := execs x_wstep x_wreset x_winit (x_goal []) (x_detect None (0%%Z, 1%%positive)) cfg in
+  let g := MGame (ScanNetwork, 3%%N) true in
+  let ls0 := [LConnect 1%%N; LArrive 1%%N (CMsg (MJoin (Some (7%%N, Some RAttacker)))); LRun (TConn 1%%N); LRun TDispatch; LRun (THandler 0);
+              LRun (TConn 1%%N); LArrive 1%%N (CMsg g); LRun (TConn 1%%N); LRun TDispatch; LRun (THandler 1); LRun TRewards] in
+  let ls := [LRun (THandler 1); LRun (TConn 1%%N); LArrive 1%%N (CMsg g); LRun (TConn 1%%N); LRun TDispatch; LRun (THandler 2); LRun (TConn 1%%N)] in
+  match ex (init_state [5%%N; 6%%N; 8%%N]) ls0 with
+  | Some s =>
+      match alookup 1%%N (agents s), ex s ls with
+      | Some a, Some s' =>
+          a_rewarded a = true /\\ a_ended a = true /\\ a_reward a = (-11)%%Z /\\ a_status a = STimeout /\\
+          (exists h, In h (handlers s) /\\ h_pc h = PRewards true (ScanNetwork, 3%%N) 6%%N) /\\
+          match alookup 1%%N (agents s') with
+          | Some a' => a_reward a' = (-11)%%Z /\\ a_steps a' = 1 /\\ length (t_actions (a_traj a')) = 1
+          | None => False
+          end
+      | _, _ => False
+      end
+  | None => False
+  end.
+Proof. vm_compute. repeat split; try reflexivity. eexists. split; [left; reflexivity | reflexivity]. Qed.
+"""
+
 GP.build("C01", "Every agent message is answered exactly once",
          "   Model: Model/Coord.v (one internal label = one atomic task step, unconstrained scheduler).",
          [("C01_tokens", "tokens_reachable",
@@ -70,8 +101,10 @@ GP.build("C04", "An episode ends exactly when it should, for the right reason, a
           ("C04_reply", "game_finish_eq", "the reply carries the stored view, reward, end flag and the end reason iff the status is terminal"),
           ("C04_absorbing", "forbidden_after_end", "after the end every game action is refused with FORBIDDEN, the last sent view, the current reward and reason ..."),
           ("C04_absorbing_frame", "respond_frame", "... and changes no counter, view, status, world or trajectory"),
-          ("C04_defender_reason", "reward_agent_bonus", "a defender's reason becomes Success exactly when no attacker succeeded")],
-         example=EX % "C04")
+          ("C04_defender_reason", "reward_agent_bonus", "a defender's reason becomes Success exactly when no attacker succeeded"),
+          ("C04_stays_ended", "ended_stays_reachable", "ACROSS LABELS: from any reachable state in which an agent's episode has ended, along every continuation without a run of the reset task (any interleaving, other agents acting, joining, leaving), the agent - while it is in the game - stays ended and its step counter and view do not move"),
+          ("C04_one_label", "agent_step_reachable", "what one label can do to one agent's record, from every reachable state: the complete case list `achange` (Proofs/CoordAgentStep.v): nothing; request flag set; own action (only when not ended); answer recorded; trajectory restarted; reward task; reset task (only when it had asked)")],
+         example=(EX % "C04") + (EX2 % "C04"))
 
 GP.build("C05", "Rewards follow the configured rule and the end bonus is paid exactly once",
          "",
@@ -81,15 +114,19 @@ GP.build("C05", "Rewards follow the configured rule and the end bonus is paid ex
           ("C05_only_all_ended", "rewards_only_when_all_ended", "the task does nothing unless every agent in the game has finished"),
           ("C05_effect", "rewards_effect", "what the task does when it acts"),
           ("C05_forbidden", "forbidden_after_end", "refused actions repeat the stored reward and change nothing"),
-          ("C05_reset", "reset_one_effect", "a reset returns reward and counters to zero")],
-         example=EX % "C05")
+          ("C05_reset", "reset_one_effect", "a reset returns reward and counters to zero"),
+          ("C05_once_episode", "rewarded_once_reachable", "ACROSS LABELS (exactly once): from any reachable state in which an agent has been rewarded, along every continuation without a run of the reset task, the agent - while it is in the game - has exactly the same reward, status, view and step counter: no second bonus, whatever the reward task, other agents or repeated requests do"),
+          ("C05_rewarded_ended", "rewarded_ended_reachable", "in every reachable state a rewarded agent has finished its episode (no bonus before the end)"),
+          ("C05_reward_moves", "achange_reward_changes", "the reward of a finished agent changes only by the reward task paying an agent not yet rewarded, or by the reset")],
+         example=(EX % "C05") + (EX2 % "C05"))
 
 GP.build("C06", "Start and end-of-episode barriers hold for all agents",
          "",
          [("C06_end", "rewards_only_when_all_ended", "the handlers waiting for the end of the episode are released only by the reward task, and it does nothing unless every agent in the game has finished"),
           ("C06_end_all", "rewards_effect", "when it acts, it releases ALL of them in the same step (no lost wake-up)"),
           ("C06_quiescent", "quiescent_reachable", "when the coordinator is idle, an unanswered request is parked at a barrier whose wait was not released"),
-          ("C06_nonfinal", "game_step_eq", "a non-final observation is never held back: it is answered in the segment that executed the action")],
+          ("C06_nonfinal", "game_step_eq", "a non-final observation is never held back: it is answered in the segment that executed the action"),
+          ("C06_parked_final", "parked_view_reachable", "in every reachable state a handler held at the end-of-episode barrier belongs to an agent whose episode has ended, and the view it will report is exactly the stored one (final observations only are held back)")],
          example=EX % "C06")
 
 GP.build("C07", "Reset is collective, voluntary and gives every agent a fresh episode",
@@ -97,7 +134,10 @@ GP.build("C07", "Reset is collective, voluntary and gives every agent a fresh ep
          [("C07_collective", "reset_only_when_all_asked", "the reset task does nothing unless the game is non-empty and every agent in it has asked"),
           ("C07_voluntary", "reset_voluntary", "an agent that has not asked keeps its whole record (view, steps, status, reward, trajectory) across any run of the reset task"),
           ("C07_fresh", "reset_one_effect", "what the reset does to each agent: fresh initial view, counters and reward zero, playing status, request cleared; trajectory stored if configured"),
-          ("C07_done", "reset_done_content", "RESET_DONE carries that observation, the finished trajectory iff requested, and restarts the trajectory")],
+          ("C07_done", "reset_done_content", "RESET_DONE carries that observation, the finished trajectory iff requested, and restarts the trajectory"),
+          ("C07_request_stays", "request_stays_reachable", "ACROSS LABELS: a registered reset request stays registered along every continuation until the reset task runs (or the agent leaves)"),
+          ("C07_request_handler", "request_has_handler_reachable", "in every reachable state a registered request has its handler waiting for the reset: no request is ever left without somebody to answer RESET_DONE"),
+          ("C07_cleared_by_reset", "achange_req_cleared", "only the reset task clears a request")],
          example=EX % "C07")
 
 GP.build("C16", "The recorded trajectory is exactly what the agent experienced",
@@ -106,6 +146,8 @@ GP.build("C16", "The recorded trajectory is exactly what the agent experienced",
           ("C16_refused", "forbidden_after_end", "refused actions are not recorded"),
           ("C16_frame", "respond_frame", "(nor do BAD_REQUEST replies touch any trajectory)"),
           ("C16_handout", "reset_done_content", "RESET_DONE hands the trajectory out iff requested and restarts it from the new initial view"),
-          ("C16_files", "reset_one_effect", "with save_trajectories every reset appends exactly one record (name, role, trajectory) per agent in the game")],
+          ("C16_files", "reset_one_effect", "with save_trajectories every reset appends exactly one record (name, role, trajectory) per agent in the game"),
+          ("C16_wf", "traj_wf_reachable", "in every reachable state every agent's trajectory has exactly one more state than actions and as many rewards as actions"),
+          ("C16_one_label", "traj_step_reachable", "ACROSS LABELS: from every reachable state one label leaves an agent's trajectory alone, appends exactly one (action, reward, view) triple whose reward and view are the stored ones, or restarts it from the stored view (after RESET_DONE)")],
          example=EX % "C16")
 print("generated")
